@@ -63,6 +63,7 @@ class HciTap:
         self.line_h2c = DelayLine(self._to_controller, rng, max_delay)
         self.line_c2h = DelayLine(self._to_host, rng, max_delay)
         self.h2c = _Sink(self._h2c)
+        self.h2c.controller = controller  # lets lib.hcimon see that the peer is the real virtual controller
         self.c2h = _Sink(self._c2h)
         host.set_packet_sink(self.h2c)
         if controller is not None:
